@@ -443,6 +443,29 @@ def run(world, rep, tier, only=None):
             rep.ob("C10.n", site(f, "inode released only when the name was removed#%d" % i), behind,
                    "kill_file_by_inode() lies behind a test of the outcome of unlink_file_by_name()")
 
+    # ------------------------------------------------------------------ C10.o the hash function remembered for a directory is the one its names are looked up with
+    # dx_lookup() adjusts the hash version for the unsigned-char variant and hashes the name with it; it also stores the
+    # version in the lookup info, from where dx_split_leaf() takes it to sort the entries of a leaf it splits.  Both are
+    # the same value: the variable is not changed between the store and the call (either way round), or a split on an
+    # unsigned-hash file system sorts names with bytes >= 0x80 by the wrong function.
+    dxl = dbg.fn("dx_lookup", "lib/ext2fs/link.c") if dbg.has_fn("dx_lookup", "lib/ext2fs/link.c") else \
+        world.program("debugfs", plain=True).fn("dx_lookup", "lib/ext2fs/link.c")
+    keeps = [n for n in dxl.events("S") if (T.last_field(n.ev["lhs"]) or ("", ""))[1] == "hash_alg" and T.strip(n.ev["lhs"]).get("k") == "m"
+             and T.path(n.ev.get("rhs")) is not None]
+    hashes = calls_to(dxl, "ext2fs_dirhash2", "ext2fs_dirhash")
+    rep.floor("C10.o hash version kept / used in dx_lookup", min(len(keeps), len(hashes)), 1)
+    for i, k in enumerate(keeps):
+        v = T.path(k.ev["rhs"])
+        for j, h in enumerate(hashes):
+            if T.path(arg(h, 0)) != v:
+                rep.ob("C10.o", site(dxl, "lookup hash and kept version come from one variable#%d.%d" % (i, j)), False,
+                       "`%s` keeps %s, ext2fs_dirhash2() is given %s" % (k.text()[:30], v, T.pp(arg(h, 0))[:20]))
+                continue
+            first, second = (k, h) if h in dxl.reach(dxl.after(k)) else (h, k)
+            between = [n for n in dxl.events("S") if T.path(n.ev["lhs"]) == v and n in dxl.reach(dxl.after(first)) and second in dxl.reach(dxl.after(n))]
+            rep.ob("C10.o", site(dxl, "lookup hash and kept version are the same value#%d.%d" % (i, j)), not between,
+                   "stores to %s between `%s` and the hash call: %s" % (v, k.text()[:30], [(n.line, n.text()[:20]) for n in between]))
+
     # ------------------------------------------------------------------ C10.l a name that does not fit a directory entry is refused
     # name_len is one byte: ext2fs_link() must compare the length with EXT2_NAME_LEN before either the linear or the
     # htree insertion runs, or a 300-byte name is stored as the 44-byte name its length modulo 256 gives
